@@ -844,7 +844,10 @@ class ArrayOf(DataType):
         self.check_type(value)
         try:
             if previous:
-                return tuple(self.members.validate(v, p) for v, p in zip(value, previous))
+                # the new array may be longer than the previous one
+                nprev = len(previous)
+                return tuple(self.members.validate(v, previous[i] if i < nprev else None)
+                             for i, v in enumerate(value))
             return tuple(self.members.validate(v) for v in value)
         except Exception as e:
             errcls = RangeError if isinstance(e, RangeError) else WrongTypeError
